@@ -1,4 +1,5 @@
 import ExoVerif.Generated.Facts
+import ExoVerif.Generated.AvsSlices
 import ExoVerif.Proofs.Avs
 /-!
 # C20 tie: the model's window predicates and check order *are* those of the Go source
@@ -13,6 +14,10 @@ x/avs/types/{types,stage}.go and x/operator/keeper/opt.go on every run.
 * the guard skeleton (branch, condition, returned error — in source order) of every modelled entry
   point is compared with the skeleton the model was transcribed from: a dropped, added, reordered or
   edited check, or a changed error, changes the generated list and breaks the `rfl`.
+* the minimum-self-delegation guard of OptIn is translated as an expression over LegacyDec
+  (`Generated/AvsSlices.lean`) and proved equal to the comparison the model uses for every pair of
+  values: comparing rounded / truncated amounts, `LTE` for `LT`, another field of the value record
+  changes the generated function (or fails the translation) and breaks the proof.
 (`int64(x)` / `uint64(x)` conversions are translated as the identity: epochs and periods < 2^63.)
 -/
 namespace ExoVerif.Avs
@@ -173,5 +178,19 @@ theorem C20_tie_subtract_body : avsSubtractBody = "{ var rest []string exclude :
 
 /-- GetAVSMinimumSelfDelegation builds the Dec from the uint64 through big.Int, no int64() (repair of F-20a) -/
 theorem C20_tie_min_self_body : avsMinSelfBody = "{ avsInfo, err := k.GetAVSInfo(ctx, avsAddr) if err != nil { return sdkmath.LegacyNewDec(0), errorsmod.Wrap(err, fmt.Sprintf(\"GetAVSMinimumSelfDelegation: key is %s\", avsAddr)) } return sdkmath.LegacyNewDecFromBigInt(new(big.Int).SetUint64(avsInfo.Info.MinSelfDelegation)), nil }" := rfl
+
+/-- the comparison of OptIn's minimum-self-delegation guard IS the model's `selfDelegationTooLow`, for all
+pairs of 18-decimal values (translated from the guard expression on every run) -/
+theorem C20_tie_optin_min_compare (self min : Dec) :
+    optInSelfDelegationTooLow self min = selfDelegationTooLow self min := by
+  simp only [optInSelfDelegationTooLow, selfDelegationTooLow]
+
+/-- … and its two operands are what the model takes them to be: the operator's value record as
+GetOrCalculateOperatorUSDValues returns it (its SelfUSDValue is the `self` of the kernel) and the AVS's
+GetAVSMinimumSelfDelegation (`C20_tie_min_self_body`: the exact uint64 as a Dec) -/
+theorem C20_tie_optin_min_operands :
+    optInSelfSource = ":= k.GetOrCalculateOperatorUSDValues(ctx, operatorAddress, avsAddr)" ∧
+    optInMinSource = ":= k.avsKeeper.GetAVSMinimumSelfDelegation(ctx, avsAddr)" ∧
+    avsSlicesRegenerated = true := ⟨rfl, rfl, rfl⟩
 
 end ExoVerif.Avs
